@@ -15,6 +15,21 @@ CHECKS = {
  "C08": dict(tech="reference-model monitor (M-POS recomputation from raw bytes + tiling check) over Scan() results",
    text="Exploration: every token (incl. INVALID and EOF) returned by compiled generated lexers on position-hostile inputs is checked against offsets/lines/columns recomputed from the raw input, literal == input slice, no overlap, and exact tiling by tokens plus ignored lexemes.",
    note="Trusts M-POS/M-LEX; same generator domain as C01.", ref="4/C08"),
+ "C02": dict(tech="reference-model monitor (M-EARLEY membership) over Parse() verdicts of compiled generated parsers",
+   text="Exploration: grammars that gocc generates without announcing conflicts are compiled and Parse() is driven by token name over all short strings, random sentences, prefix+terminal probes and mutants; nil-error iff Earley membership; termination via an event budget on Scan/action calls (a wall-clock watchdog alone is inconclusive).",
+   note="Trusts M-EARLEY (cross-checked against M-LR1 on every conflict-free grammar of the run); small grammars; plain and -zip tables alternate.", ref="4/C02"),
+ "C03": dict(tech="offline monitor over recorded event logs (scans, action calls with argument identities) vs post-order evaluation by M-LR1",
+   text="Exploration: every action of a harness grammar is a recorder call; the log of scans, calls (production, argument identities incl. pointer identity of tokens), result, and of injected action failures is compared with the post-order evaluation of the reference parse.",
+   note="Trusts M-LR1's derivation for unambiguous grammars; identities observed at the API boundary only.", ref="4/C03"),
+ "C05": dict(tech="reference-model monitor (canonical LR(1) resolved by the stated rule) over verdict and reduction logs of -a parsers",
+   text="Exploration: conflicting grammars are generated with -a, compiled and driven; verdict and full reduction sequence are compared with the canonical LR(1) machine resolved by 'shift, else earliest production'; coverage of conflicting (state, terminal) entries is measured.",
+   note="State numbering is never compared; inputs on which the reference itself loops are inconclusive.", ref="4/C05"),
+ "C06": dict(tech="reference-model monitor (M-EARLEY viable-prefix and follow sets) over *errors.Error values and event logs",
+   text="Exploration: on non-sentences of conflict-free, error-free, productive grammars the returned error's token identity/type/literal/position, the exact expected set (as a set) and the absence of action calls after the offending token are judged against Earley.",
+   note="Viable prefix = non-empty Earley set, valid because all nonterminals are productive.", ref="4/C06"),
+ "C07": dict(tech="reference-model monitor (M-LR1 + recovery rule of the statement) over full event logs incl. error attributes; token-conservation check",
+   text="Exploration: grammars with error-first alternatives (clean and -a) are driven with valid, singly and multiply erroneous inputs; log (scans, calls, error attributes with offending token and discarded attributes, result/error) must equal the reference; no panic, no budget abort; inputs valid for the grammar without error alternatives must parse without any error attribute.",
+   note="ExpectedTokens of recovered errors is not judged (unstated).", ref="4/C07"),
 }
 
 NOT_YET = "check not built yet in this tree (work in progress; see DESIGN.md section 4 for the planned monitor)"
